@@ -22,7 +22,7 @@ def build_lines(st, decorate, rnd):
     for n in sorted(st["nodes"], key=lambda n: n["id"]):
         tags = [f"LN:i:{n['ln']}", f"SN:Z:{n['sn']}", f"SO:i:{n['so']}", f"SR:i:{n['sr']}"]
         if decorate:
-            extra = [["xn:i:-3"], ["xx:Z:a:b", "xf:f:1e-05"], [], ["xa:A:*"]][int(n["id"][1:]) % 4]
+            extra = [["xn:i:-3"], ["xx:Z:a:b", "xf:f:1e-05"], ["xs:Z:two words "], ["xa:A:*"]][int(n["id"][1:]) % 4]
             tags += extra
         S.append("\t".join(["S", n["id"], seq_of(n["id"], n["ln"])] + tags))
     for k, l in enumerate(sorted(st["links"], key=lambda l: (l["a"], l["ao"], l["b"], l["bo"]))):
@@ -33,7 +33,7 @@ def build_lines(st, decorate, rnd):
                 a, ao, b, bo = b, "-" if bo == "+" else "+", a, "-" if ao == "+" else "+"
             if k % 4 == 2:
                 ov = "3M"
-            tags = [[], ["ll:i:5"], ["lz:Z:x:y", "ll:i:7"]][k % 3]
+            tags = [[], ["ll:i:5"], ["lz:Z:x:y", "ll:i:7"], ["lc:Z:inverted allele", "lb:B:i,1,-2"]][k % 4]
         Ls.append("\t".join(["L", a, ao, b, bo, ov] + tags))
     if decorate:
         other = ["H\tVN:Z:1.0", "# a comment line", "", "P\tp1\ts8+,s9+\t*", "W\tsample\t0\tchrA\t0\t10\t>s8>s9"]
